@@ -26,8 +26,10 @@ package main
 
 import (
 	"fmt"
+	"go/constant"
 	"go/token"
 	"go/types"
+	"math/big"
 	"strings"
 
 	"golang.org/x/tools/go/ssa"
@@ -44,6 +46,8 @@ type roTables struct {
 	roots   map[ssa.Value]*roRoot
 	alias   map[*ssa.Global]*ssa.Alloc // slice-typed variable -> backing array of its literal
 	written map[string]bool            // element types some instruction outside the initialiser may write
+	exposed map[string]bool            // types whose memory is handed to reflection / unsafe / code outside the package
+	fsets   map[string]ISet            // field value sets (fieldValueSet), nil entry: unknown
 	gdirty  map[*ssa.Global]bool       // variables stored to outside the initialiser
 	okBasic map[ssa.Value]bool         // roots of basic elements whose uses are all loads
 }
@@ -75,7 +79,7 @@ func (w *World) roTabs() *roTables {
 	if w.roCache != nil {
 		return w.roCache
 	}
-	rt := &roTables{roots: map[ssa.Value]*roRoot{}, alias: map[*ssa.Global]*ssa.Alloc{}, written: map[string]bool{}, gdirty: map[*ssa.Global]bool{}, okBasic: map[ssa.Value]bool{}}
+	rt := &roTables{roots: map[ssa.Value]*roRoot{}, alias: map[*ssa.Global]*ssa.Alloc{}, written: map[string]bool{}, exposed: map[string]bool{}, fsets: map[string]ISet{}, gdirty: map[*ssa.Global]bool{}, okBasic: map[ssa.Value]bool{}}
 	w.roCache = rt
 	initFn := w.Pkg.Func("init")
 	if initFn == nil {
@@ -183,6 +187,13 @@ func (w *World) roTabs() *roTables {
 		}
 		elemTypesOf(t, rt.written)
 	}
+	expose := func(t types.Type) {
+		if t == nil {
+			return
+		}
+		elemTypesOf(t, rt.written)
+		elemTypesOf(t, rt.exposed)
+	}
 	pointee := func(t types.Type) types.Type {
 		switch u := t.Underlying().(type) {
 		case *types.Pointer:
@@ -222,10 +233,25 @@ func (w *World) roTabs() *roTables {
 						mark(pointee(fa.X.Type()))
 					}
 				case *ssa.MakeInterface:
-					mark(pointee(x.X.Type()))
+					expose(pointee(x.X.Type()))
 				case *ssa.Convert:
 					if b, ok := x.Type().Underlying().(*types.Basic); ok && b.Kind() == types.UnsafePointer {
-						mark(pointee(x.X.Type()))
+						expose(pointee(x.X.Type()))
+					}
+					if b, ok := x.X.Type().Underlying().(*types.Basic); ok && b.Kind() == types.UnsafePointer {
+						expose(pointee(x.Type()))
+					}
+					if _, isSt := x.Type().Underlying().(*types.Struct); isSt {
+						expose(x.Type()) // a struct converted from another struct type
+					}
+				case *ssa.ChangeType:
+					if _, isSt := x.Type().Underlying().(*types.Struct); isSt {
+						expose(x.Type())
+					}
+					if pt := pointee(x.Type()); pt != nil {
+						if _, isSt := pt.Underlying().(*types.Struct); isSt {
+							expose(pt)
+						}
 					}
 				case *ssa.Call:
 					c := x.Common()
@@ -246,7 +272,7 @@ func (w *World) roTabs() *roTables {
 						}
 						if pt := pointee(a.Type()); pt != nil {
 							if _, isB := pt.Underlying().(*types.Basic); !isB {
-								mark(pt)
+								expose(pt)
 							}
 						}
 					}
@@ -408,4 +434,75 @@ func (w *World) roLoad(root ssa.Value, path []int) (val ssa.Value, typ types.Typ
 		}
 	}
 	return nil, t, false, false
+}
+
+// fieldValueSet: every value field #field of the unexported package struct
+// type st can hold, whatever object it is read from — the zero value and the
+// constants stored into that field anywhere in the package (initialiser
+// included).  Field-based and object-insensitive: Go's type system forces a
+// write to the field to be a store through a FieldAddr on *st (a composite
+// literal is built that way too), whole-struct copies only move values that
+// are already in the set, and the type cannot be built outside the package;
+// memory of the type handed to reflection / unsafe / foreign code makes the
+// set unknown (nil), as does any stored value that is not a constant.
+func (w *World) fieldValueSet(structT types.Type, field int) ISet {
+	named, ok := structT.(*types.Named)
+	if !ok || named.Obj().Pkg() != w.TPkg || token.IsExported(named.Obj().Name()) {
+		return nil
+	}
+	stt, ok := named.Underlying().(*types.Struct)
+	if !ok || field < 0 || field >= stt.NumFields() {
+		return nil
+	}
+	if _, ok := typeRange(w, stt.Field(field).Type()); !ok {
+		return nil
+	}
+	rt := w.roTabs()
+	key := fmt.Sprintf("%s#%d", roTypeKey(named), field)
+	if s, done := rt.fsets[key]; done {
+		return s
+	}
+	rt.fsets[key] = nil
+	if rt.exposed[roTypeKey(named)] {
+		return nil
+	}
+	set := single(0)
+	for _, fn := range w.allPkgFuncs() {
+		for _, b := range fn.Blocks {
+			for _, in := range b.Instrs {
+				st, ok := in.(*ssa.Store)
+				if !ok {
+					continue
+				}
+				fa, ok := st.Addr.(*ssa.FieldAddr)
+				if !ok || fa.Field != field {
+					continue
+				}
+				pt, ok := fa.X.Type().Underlying().(*types.Pointer)
+				if !ok || !types.Identical(pt.Elem(), named) {
+					continue
+				}
+				c, isC := st.Val.(*ssa.Const)
+				if !isC || c.Value == nil {
+					return nil
+				}
+				switch c.Value.Kind() {
+				case constant.Int:
+					v, ok := new(big.Int).SetString(c.Value.ExactString(), 10)
+					if !ok {
+						return nil
+					}
+					set = set.Union(ISet{{v, v}})
+				case constant.Bool:
+					if constant.BoolVal(c.Value) {
+						set = set.Union(single(1))
+					}
+				default:
+					return nil
+				}
+			}
+		}
+	}
+	rt.fsets[key] = set
+	return set
 }
